@@ -603,6 +603,11 @@ def judge(prog, base, r, lines=None):
     ab = [x for x in (base, r) if x["err"] == "INTERNAL:AssertionError"]
     if ab and all(x.get("errwhere") == "eval_nodes.py:__setitem__" for x in ab) and len(errs) == 2:
         return ("violation", "%s:assertion-resultset-only-under-some-orders" % fam, d)
+    if (ab and all(x.get("errwhere") == "formula.py:get_node" for x in ab) and len(errs) == 2
+            and "evidence(" in source_text(prog)):
+        # evidence on an atom of a cyclic predicate that is deterministically true: under some orders
+        # the engine emits disj(children=(0,)) and break_cycles trips `assert is_probabilistic`
+        return ("violation", "%s:assertion-break-cycles-evidence-on-cyclic-true-atom-under-some-orders" % fam, d)
     if "NegativeCycle" in errs and len(errs) == 2:
         strat = stratified(prog)
         if strat:
